@@ -109,6 +109,8 @@ fn build_with(ch: &mut Chooser, sweep: Option<(usize, usize)>) -> Built {
     let spell = ch.pick_named("string-spelling", SPELL);
     let sfilter = ch.pick_named("stream-filter", SFILTER);
     let xref = ch.pick_named("xref", XREF);
+    // V 4: the key length of the crypt filter is its own /Length (bytes); the dictionary's /Length is defined for V 2 and 3 only
+    let drop_dict_length = ch.pick_named("dict-Length", &["present", "absent-when-V4"]) == 1 && v.r() == 4;
     let mut upw = user_pw(ui, utf8);
     let mut opw: Vec<u8> = match oi {
         0 => b"o".to_vec(),
@@ -198,10 +200,16 @@ fn build_with(ch: &mut Chooser, sweep: Option<(usize, usize)>) -> Built {
         fb.add_objstm(12, &members, &ObjStmOpts::default());
         compressed_string_obj = Some(13);
     }
-    if place == 0 {
-        fb.add(9, 0, &sec.dict());
+    let mut sec_dict = sec.dict();
+    if drop_dict_length {
+        if let Val::Dict(entries) = &mut sec_dict {
+            entries.retain(|(k, _)| &k[..] != &b"Length"[..]);
+        }
     }
-    let encv = if place == 0 { Val::r(9) } else { sec.dict() };
+    if place == 0 {
+        fb.add(9, 0, &sec_dict);
+    }
+    let encv = if place == 0 { Val::r(9) } else { sec_dict.clone() };
     let extra = [("Root", Val::r(1)), ("Encrypt", encv), ("ID", Val::Array(vec![Val::Str(id0.clone()), Val::Str(id0.clone())]))];
     if xref >= 1 {
         fb.finish_stream(&extra, &XrefStreamOpts::new(14));
